@@ -1,6 +1,7 @@
 import FimVerif.Proofs.Lemmas.C17Script
 import FimVerif.Proofs.Lemmas.C17Cfg
 import FimVerif.Proofs.Lemmas.C17Sym
+import FimVerif.Proofs.Lemmas.C17Val
 import FimVerif.Generated.DiffCfg
 /-!
 # C17 — sliver comparison reports exactly the differences between two slivers
@@ -98,6 +99,11 @@ example : exIface.Wf := by decide
 example : exSvc.Wf := by decide
 example : exNode.Wf ∧ exNode.Ok ∧ PairOk exNode exNode := by decide
 example : ¬ PairOk { exNode with comps := some [{ name := "nic1", props := {}, smart := true, svcs := none }] } exNode := by decide
+
+/-- the same of what the driver runs (the table-driven method on the table extracted in this run) -/
+theorem generated_node_diff_self_none (n : Node V) (h : n.Wf) (hok : n.Ok) :
+    nodeDiffC FimVerif.Gen.DiffCfg.cfg n n = .ok none := by
+  rw [generated_model_eq.2.2]; exact node_diff_self_none n h hok
 
 /-! ## 2. what is added old→new is what is removed new→old -/
 
@@ -259,6 +265,11 @@ theorem svc_diff_exact (sc : SvcScript V) (s : Svc V) (hs : s.Wf) (hnc : sc.NC s
 theorem node_diff_exact (sc : NodeScript V) (n : Node V) (hn : n.Wf) (hnc : sc.NC n) (hok : n.Ok) :
     ∃ r, nodeDiff n (applyNode sc n) = .ok r ∧ SameReport r (expNode sc n) :=
   ⟨_, nodeDiff_ok n (applyNode sc n) (pairOk_applyNode sc n hn hnc hok), nodeDiffP_edit sc n hn hnc⟩
+
+/-- the same of what the driver runs -/
+theorem generated_node_diff_exact (sc : NodeScript V) (n : Node V) (hn : n.Wf) (hnc : sc.NC n) (hok : n.Ok) :
+    ∃ r, nodeDiffC FimVerif.Gen.DiffCfg.cfg n (applyNode sc n) = .ok r ∧ SameReport r (expNode sc n) := by
+  rw [generated_model_eq.2.2]; exact node_diff_exact sc n hn hnc hok
 
 -- non-vacuity: a combined script on the example node (set node capacities; add a component; change a sub-interface's
 -- labels and add a sub-interface below the SmartNIC; remove one node-level service and add another)
@@ -436,5 +447,58 @@ theorem node_diff_kind_collision_counterexample :
   ⟨{ name := "n1", props := {}, svcs := none, comps := some [{ name := "nic1", props := {}, smart := true, svcs := some [exSvc] }] },
    { name := "n1", props := {}, svcs := none, comps := some [{ name := "nic1", props := {}, smart := false, svcs := none }] },
    by decide⟩
+
+/-! ## 9. the values that are compared: the value classes' own equality
+
+`prop_diff` asks `!=` of `Labels`, `Capacities` and `UserData` objects.  `Model/DiffVal.lean` mirrors their `__eq__` as written
+(`gen/diffcfg.py` extracts the loop's default for a missing field, the `if not other` guard being a `None` test, and that
+`JSONData.__eq__` compares class and canonical text); the sliver model above is used on canonical forms `Val`. -/
+
+open FimVerif.DiffVal
+
+/-- `Labels.__eq__` / `Capacities.__eq__` on two instances with the same fields: equal iff the field dictionaries are equal,
+whatever the default for a missing field -/
+theorem fields_eq_is_dict_equality (m : FV) (a b : Fields) (hk : a.map (·.1) = b.map (·.1)) (hn : (a.map (·.1)).Nodup) :
+    fieldsEq m a b = true ↔ a = b := fieldsEq_iff_eq m a b hk hn
+
+/-- in particular an instance equals an identical copy of itself - also one on which nothing is set (`Labels()`,
+`Capacities()`, all fields `None` / `0`) -/
+theorem fields_eq_refl (m : FV) (a : Fields) (hn : (a.map (·.1)).Nodup) : fieldsEq m a a = true := fieldsEq_refl m a hn
+
+example : ([("vlan", FV.null), ("mac", FV.null)] : Fields).map (·.1) |>.Nodup := by decide
+example : fieldsEq .null [("vlan", .null), ("mac", .null)] [("vlan", .null), ("mac", .null)] = true := by decide
+example : fieldsEq (.int 0) [("core", .int 0), ("ram", .int 0)] [("core", .int 0), ("ram", .int 0)] = true := by decide
+-- and an instance never equals `None`: a present-but-empty `Labels()` against an unset property is a change
+example : optNe (fieldsEq .null) (some [("vlan", .null)]) none = true ∧ optNe (fieldsEq .null) none (some [("vlan", .null)]) = true ∧
+    optNe (fieldsEq .null) (none : Option Fields) none = false := by decide
+
+/-- `JSONData.__eq__` (same class) is an equivalence: it is equality of canonical forms -/
+theorem user_data_eq_equivalence (a b c : J) :
+    udEq a a = true ∧ udEq a b = udEq b a ∧ (udEq a b = true → udEq b c = true → udEq a c = true) ∧
+    (udEq a b = true ↔ a.canon = b.canon) :=
+  ⟨udEq_refl a, udEq_symm a b, udEq_trans a b c, udEq_iff a b⟩
+
+/-- the order in which an object lists its members does not matter, at any depth (neighbour swaps generate every order) -/
+theorem user_data_member_order_irrelevant (k1 k2 : String) (v1 v2 t : J) (hne : k1 ≠ k2) :
+    (J.mem k1 v1 (.mem k2 v2 t)).canon = (J.mem k2 v2 (.mem k1 v1 t)).canon ∧
+    udEq (.obj (.mem k1 v1 (.mem k2 v2 t))) (.obj (.mem k2 v2 (.mem k1 v1 t))) = true :=
+  ⟨canon_swap_members k1 k2 v1 v2 t hne, udEq_swap_members k1 k2 v1 v2 t hne⟩
+
+/-- JSON values of different type stay different although Python's `==` on the decoded values conflates them:
+`true` / `1`, `1` / `1.0`, `false` / `0`, also inside an object (a comparison of decoded values - C17-1 - would miss these) -/
+theorem user_data_types_distinct :
+    udEq (.bool true) (.num "1") = false ∧ udEq (.num "1") (.num "1.0") = false ∧ udEq (.bool false) (.num "0") = false ∧
+    udEq (.obj (.mem "autostart" (.bool true) .nil)) (.obj (.mem "autostart" (.num "1") .nil)) = false := by decide
+
+/-- the flags `prop_diff` computes with the value classes' own equality are those of the sliver model on canonical forms -/
+theorem prop_diff_on_values (a b : RawProps) (hl : SameFields a.labels b.labels) (hc : SameFields a.caps b.caps) :
+    propDiffRaw a b = propDiff (canonProps a) (canonProps b) := propDiffRaw_eq a b hl hc
+
+/-- hence no flag for an identical copy of the three values, whatever they are -/
+theorem prop_diff_on_values_self (a : RawProps) (hl : SameFields a.labels a.labels) (hc : SameFields a.caps a.caps) :
+    propDiffRaw a a = Flags.none := by
+  rw [propDiffRaw_eq a a hl hc]; exact propDiff_self _
+
+example : SameFields (some [("vlan", FV.str "100"), ("mac", .null)]) (some [("vlan", .null), ("mac", .null)]) := by decide
 
 end FimVerif.C17
